@@ -303,7 +303,7 @@ def _run_mode(ctx, exe, label, name, mkargs, total, stats, issues, nshards=None,
 
 def run(ctx, exe, tier, seed, fuzz_cases=None):
     if fuzz_cases is None:
-        fuzz_cases = 10000 if tier == "quick" else 400000
+        fuzz_cases = 9000 if tier == "quick" else 400000
     issues = []
     stats = {"events": 0, "episodes": 0, "crashes": 0, "restarts": 0,
              "gave_up": 0, "tlc_generated": 0, "distinct_nontrivial": 0}
